@@ -47,6 +47,82 @@ def norm_kind(kind):
     return k
 
 
+def type_ref(rust_ty):
+    """the message type a field's Rust type names (innermost path inside Option / Vec / Box), or None for scalars"""
+    t = rust_ty.replace(" ", "").rstrip(",")
+    if t.startswith("(") and t.endswith(")"):
+        t = t[1:-1].rstrip(",")  # a oneof variant's tuple field
+    while True:
+        m = None
+        for w in ("::core::option::Option<", "::prost::alloc::vec::Vec<", "::prost::alloc::boxed::Box<", "Option<", "Vec<", "Box<"):
+            if t.startswith(w) and t.endswith(">"):
+                m = t[len(w):-1]
+                break
+        if m is None:
+            break
+        t = m.rstrip(",")
+    if t in ("bool", "i32", "i64", "u32", "u64", "f32", "f64", "::prost::alloc::string::String", "String") or t.startswith(("::prost::alloc::vec::Vec<u8", "::prost::bytes", "::prost::alloc::collections", "::std::collections")):
+        return None
+    return t.replace("r#", "")
+
+
+def resolve_path(module_rust_path, ref):
+    """absolute Rust path of `ref` written inside module `module_rust_path` (super:: / self:: / crate:: aware)"""
+    if ref.startswith("::"):
+        return ref[2:]
+    segs = module_rust_path.split("::") if module_rust_path else []
+    parts = ref.split("::")
+    if parts and parts[0] == "crate":
+        return "::".join(parts[1:])
+    while parts and parts[0] in ("super", "self"):
+        if parts[0] == "super" and segs:
+            segs = segs[:-1]
+        parts = parts[1:]
+    return "::".join(segs + parts)
+
+
+class Schema:
+    """the bindings' types by FQN with `pub use` re-exports resolved and message-typed fields resolved to FQNs"""
+
+    def __init__(self, d):
+        self.local = dict(d["local"])
+        self.by_rust = {m["rust_path"].replace("r#", ""): fqn for fqn, m in self.local.items()}
+        self.aliases = {}
+        for u in d.get("uses", []):
+            tgt = resolve_path(u["module"].replace("r#", ""), u["target"])
+            f = self.by_rust.get(tgt)
+            if f is not None and u["name"] != "*":
+                fq = "%s.%s" % (u["scope"], u["name"])
+                if fq not in self.local:
+                    self.local[fq] = dict(self.local[f], alias_of=f, use_line=u["line"], use_file=u["file"])
+                    self.aliases[fq] = f
+                    self.by_rust[(u["module"].replace("r#", "") + "::" + u["name"])] = fq
+
+    def ref_of(self, fqn, field):
+        """FQN (or ('ext', path)) of the message type of a field of local[fqn]"""
+        r = type_ref(field.get("rust_ty") or "")
+        if r is None:
+            return None
+        m = self.local[fqn]
+        mod = m["rust_path"].replace("r#", "").rsplit("::", 1)[0] if "::" in m["rust_path"] else ""
+        ab = resolve_path(mod, r)
+        f = self.by_rust.get(ab)
+        return f if f is not None else ("ext", ab)
+
+    def refs(self, fqn):
+        out = {}
+        m = self.local[fqn]
+        if m["kind"] == "enum":
+            return out
+        for f in m["fields"]:
+            if f["kind"].split("=")[0] in ("message", "oneof") or f["kind"].startswith(("map", "btree_map", "hash_map")):
+                r = self.ref_of(fqn, f)
+                if r is not None:
+                    for t in f["tags"]:
+                        out[t] = r
+        return out
+
+
 def card(label):
     l = label.split("(")[0]
     return {"": "single", "optional": "single", "required": "single", "repeated": "repeated"}.get(l, l), label
@@ -62,7 +138,8 @@ def run(R, env):
     R.rule("C20.R5", "Any: from_any decodes only behind any.type_url == Self::TYPE_URL (the other arm is an error exit); to_any builds Any{type_url: Self::TYPE_URL, value: to_bytes(self)}")
     R.assume("prost-derive generates matching encoders and decoders from the field attributes (trusted); byte-level equality of encodings follows from schema equality and is not checked on bytes")
     R.assume("osmosis-std is an independent rendering of the shared cosmos/ibc/cosmwasm protobuf definitions")
-    local, ref = d["local"], d["reference"]
+    SC = Schema(d)
+    local, ref = SC.local, d["reference"]
     R.ob("C20.R3", "sources-parse", not d["parse_errors"], "generated sources do not parse: %s" % d["parse_errors"][:3], fn="initia-proto")
     nmsg = len([1 for m in local.values() if m["kind"] == "message"])
     R.floor("C20.R3", "message structs", nmsg, FLOORS["messages"])
@@ -134,6 +211,60 @@ def run(R, env):
                     R.ob("C20.R2", "%s:value%s" % (fqn, t), False, "enumeration value %s is now named %s (pinned: %s)" % (t, c[0], k), loc="%s:%s" % (m["file"], m["line"]), fn=fqn)
             elif norm_kind(c[0]) != norm_kind(k) or wire_of(c[0]) != wire_of(k) or c[1] != l:
                 R.ob("C20.R2", "%s:tag%s" % (fqn, t), False, "tag %s is now %s %s; the pinned definition is %s %s" % (t, c[1] or "single", c[0], l or "single", k), loc="%s:%s" % (m["file"], m["line"]), fn=fqn)
+    # nested types: a message-typed field must still name a type with the pinned wire schema (the same FQN, or —
+    # for a type shared between packages / re-exported with `pub use` — a structurally identical one, recursively)
+    def tags_of(fq):
+        m_ = local[fq]
+        return {t: ([f["kind"], f["label"]] if m_["kind"] != "enum" else [f["name"], ""]) for f in m_["fields"] for t in f["tags"]}
+
+    memo = {}
+
+    def equiv(cur, bfq, depth=0):
+        """does the current type `cur` (FQN or ext) have the pinned wire schema of `bfq`?"""
+        if isinstance(cur, tuple) or isinstance(bfq, list):
+            return (list(cur) if isinstance(cur, tuple) else cur) == bfq
+        key = (cur, bfq)
+        if key in memo:
+            return memo[key]
+        memo[key] = True  # coinductive: cycles are equal unless a difference is found
+        e_ = base.get(bfq)
+        if e_ is None or cur not in local:
+            memo[key] = cur == bfq
+            return memo[key]
+        ok_ = local[cur]["kind"] == e_["kind"]
+        ct = tags_of(cur)
+        if ok_ and set(ct) != set(e_["tags"]):
+            ok_ = False
+        if ok_:
+            for t_, (k_, l_) in e_["tags"].items():
+                c_ = ct[t_]
+                if local[cur]["kind"] == "enum":
+                    ok_ = ok_ and c_[0] == k_
+                elif norm_kind(c_[0]) != norm_kind(k_) or wire_of(c_[0]) != wire_of(k_) or c_[1] != l_:
+                    ok_ = False
+        if ok_ and depth < 12:
+            cr = SC.refs(cur)
+            for t_, br in (e_.get("refs") or {}).items():
+                if t_ in cr and not equiv(cr[t_], br, depth + 1):
+                    ok_ = False
+        memo[key] = ok_
+        return ok_
+
+    nrefs = 0
+    for fqn, e in base.items():
+        if fqn not in local:
+            continue
+        cr = SC.refs(fqn)
+        for t, br in (e.get("refs") or {}).items():
+            nrefs += 1
+            c_ = cr.get(t)
+            if c_ is None:
+                continue  # kind change: reported above
+            same_name = (list(c_) if isinstance(c_, tuple) else c_) == br
+            if not same_name and not equiv(c_, br):
+                m = local[fqn]
+                R.ob("C20.R2", "%s:tag%s:type" % (fqn, t), False, "tag %s now carries %s, whose wire schema differs from the pinned %s" % (t, c_ if not isinstance(c_, tuple) else c_[1], br if not isinstance(br, list) else br[1]), loc="%s:%s" % (m.get("use_file", m["file"]), m.get("use_line", m["line"])), fn=fqn)
+    R.floor("C20.R2", "pinned message-typed fields checked", nrefs, 1000)
     R.ob("C20.R2", "pinned-schema-holds", True, "%d pinned types, %d pinned tags checked; %d new types" % (len(base), nb, len([k for k in local if k not in base])), fn="initia-proto")
     R.floor("C20.R2", "pinned tags checked", nb, 3000)
     # ------------------------------------------------------------ R3
